@@ -26,9 +26,11 @@ import tempfile
 from harness import common
 
 ASSUMPTIONS = [
-    'lines are complete and CRLF-terminated; how reads are cut is varied (one line per read, two lines per '
-    'read, everything in one read, one byte per read) but the line splitter itself (partial last line, the '
-    'length limit at its exact boundary) is C04\'s subject: over-long lines used here are well past the limit',
+    'open-loop and closed-loop cases: lines are complete and CRLF-terminated, cut into reads at line granularity '
+    '(one line per read, two, everything in one read) and one byte per read; over-long lines there are well '
+    'past the limit.  Cuts INSIDE lines, inside CRLF and at the 16384/16385 limit (and unterminated remainders '
+    'of 16385/16386 bytes) are the separate byte-level cases, compared with Model/Framing.v run at the '
+    'ClientAuthenticator instance (Proofs/AuthClientFramingBridge.v); the splitter in general is C04\'s subject',
     'an exception other than DBusAuthenticationFailed escaping dataReceived before authentication (a command '
     'word that is not UTF-8) is the connection being dropped, as Twisted does; after connectionAuthenticated() '
     'nothing more is fed or compared (binary mode, and lines sharing the read with the final one: C04/D03)',
@@ -482,16 +484,94 @@ def evaluate_loop(env, cases, res):
                         'handshake-with-conforming-server-incomplete' + failure_phase(s['raw_log']))
 
 
+def run_impl_chunks(env, unix, chunks):
+    """the real client fed exactly these reads -> flat tokens (nothing after authentication)"""
+    p, t = env.connect(unix)
+    cut = Cutter()
+    flat = cut.drain(t.events)
+    for ch in chunks:
+        if t.disconnecting:
+            break                                  # the transport delivers nothing after loseConnection
+        try:
+            p.dataReceived(ch)
+        except Exception:
+            if not any(e[0] == 'authd' for e in t.events):
+                t.loseConnection()
+            flat.extend(cut.drain(t.events))
+            break
+        flat.extend(cut.drain(t.events))
+        if any(x[0] == 'authd' for x in flat):
+            break
+    for k, x in enumerate(flat):
+        if x[0] == 'authd':
+            return flat[:k + 1]
+    return flat + cut.drain(t.events, final=True)
+
+
+def cut_at(stream, points):
+    pts = sorted(set(p for p in points if 0 < p < len(stream)))
+    out, prev = [], 0
+    for p in pts:
+        out.append(stream[prev:p])
+        prev = p
+    out.append(stream[prev:])
+    return out
+
+
+def evaluate_cut(env, cases, res):
+    """['cut', unix, user, seeds, stream, [cut points, ...]]: one byte stream under several cuttings into
+    reads, INSIDE lines too; model = Model/Framing.v's dataReceived with the ClientAuthenticator model as
+    authenticator (op 3), which Proofs/AuthClientFramingBridge.v proves equal to the line-level session"""
+    stats = res.extra.setdefault('byte_level_cuttings', {'streams': 0, 'cuttings': 0})
+    mlines, impl = [], []
+    for c in cases:
+        _, unix, user, seeds, stream, cuttings = c
+        nonces = [nonce_of(x) for x in seeds]
+        runs = []
+        for pts in cuttings:
+            chunks = cut_at(stream, pts)
+            env.enter(user, KEYRING, seeds)
+            try:
+                runs.append(run_impl_chunks(env, bool(unix), chunks))
+            finally:
+                env.leave()
+            mlines.append('(7 3 %s)' % ' '.join(common.dump(x) for x in
+                                               [1 if unix else 0, user, KEYRING, nonces,
+                                                sha_table(KEYRING, nonces, stream.split(b'\r\n')), chunks]))
+        impl.append(runs)
+    outs = common.run_model(mlines, jobs=min(16, max(1, len(mlines))))
+    k = 0
+    for c, runs in zip(cases, impl):
+        stats['streams'] += 1
+        res.count(c, nontrivial=True)
+        first = None
+        for pts, flat in zip(c[5], runs):
+            stats['cuttings'] += 1
+            o = outs[k]
+            k += 1
+            m_flat = [out_tok(x) for x in o[0]] if isinstance(o, list) and o and isinstance(o[0], list) else o
+            if flat != m_flat:
+                res.disagree(c, {'cut points': pts, 'flat': flat}, {'flat': m_flat})
+            if first is None:
+                first = (pts, flat)
+            elif flat != first[1]:
+                viol(res, c, 'the same byte stream cut at %r and at %r makes the client behave differently: %r vs %r'
+                     % (first[0], pts, first[1], flat), 'handshake-depends-on-read-boundaries')
+
+
 def evaluate(ctx, cases, res):
     cases = [list(c) for c in cases]
     env = Env()
     try:
-        open_cases = [c for c in cases if c and c[0] != 'loop']
+        open_cases = [c for c in cases if c and c[0] not in ('loop', 'cut')]
         loop_cases = [c for c in cases if c and c[0] == 'loop']
+        cut_cases = [c for c in cases if c and c[0] == 'cut']
         if open_cases:
             evaluate_open(env, open_cases, res)
         if loop_cases:
             evaluate_loop(env, loop_cases, res)
+        if cut_cases:
+            evaluate_cut(env, cut_cases, res)
     finally:
         env.close()
 
@@ -611,6 +691,28 @@ def run(ctx, res):
         cases.append([rng.randrange(2), b'vuser', KEYRING, [b'\x05' * 8] * 4, pre + [long_line(rng)] + post])
     evaluate(ctx, cases, res)
     res.extra['over_long_line_cases'] = len(cases)
+
+    # byte-level cuttings inside lines, at the line-length limit and inside the delimiter
+    lim = 16384
+    cuts = []
+    lengths = (lim, lim + 1) if ctx.quick else (lim - 1, lim, lim + 1, lim + 2)
+    for L in lengths:
+        for unix in ((1,) if ctx.quick else (0, 1)):
+            line = b'DATA ' + b'a' * (L - 5)
+            stream = line + b'\r\nOK 1234deadbeef\r\nAGREE_UNIX_FD\r\nl' + b'\0' * 7
+            half = [8192]              # keep reads small for the model runner's parser
+            cuttings = [half, half + [L], half + [L + 1], half + [L, L + 1], half + [lim], half + [lim + 1],
+                        half + [lim - 1, lim, lim + 1, lim + 2, lim + 3], half + [L + 2 + 4, L + 2 + 17]]
+            if not ctx.quick:
+                cuttings.append(half + list(range(lim - 3, len(stream))))
+            cuts.append(['cut', unix, b'vuser', [b'\x07' * 8] * 2, stream, cuttings])
+    for T in ((lim + 1, lim + 2) if ctx.quick else (lim, lim + 1, lim + 2, lim + 3)):
+        # an unterminated remainder: acceptable while it can still become a line of the maximum length
+        stream = b'DATA\r\n' + b'OK ' + b'ab' * ((T - 3) // 2) + (b'c' if (T - 3) % 2 else b'')
+        cuts.append(['cut', 0, b'vuser', [b'\x07' * 8] * 2, stream,
+                     [[8192], [6, 8192], [8192, len(stream) - 2, len(stream) - 1], [8192, lim, lim + 1, lim + 2]]])
+    evaluate(ctx, cuts, res)
+    res.sample(['cut', cuts[0][1], cuts[0][2], cuts[0][3], cuts[0][4][:40] + b'...', cuts[0][5][:3]])
 
     # closed loop against the reference server
     sets = [[b'EXTERNAL'], [b'DBUS_COOKIE_SHA1'], [b'ANONYMOUS'], [b'EXTERNAL', b'DBUS_COOKIE_SHA1'],
